@@ -599,6 +599,7 @@ class GraphVScale(Widget):
             self.pos.append(y)
             self.txt.append(Text(markup))
         self.top = top
+        self._invalidate()
 
     def selectable(self) -> Literal[False]:
         """
